@@ -92,6 +92,8 @@ struct Agg {
     n_violations: u64,
     samples: Vec<J>,
     toolerr_msgs: Vec<String>,
+    /// union of the specification actions the replayed behaviours exercised (records that carry `acts`)
+    acts: std::collections::BTreeSet<String>,
 }
 
 pub fn replay(family: &str, args: &[String]) -> i32 {
@@ -201,6 +203,17 @@ pub fn replay(family: &str, args: &[String]) -> i32 {
                     let key = h.finish();
                     let mut a = agg.lock().unwrap();
                     a.total += 1;
+                    if rec.contains("\"acts\":[") {
+                        if let Ok(r) = serde_json::from_str::<J>(&rec) {
+                            if let Some(xs) = r["acts"].as_array() {
+                                for x in xs {
+                                    if let Some(t) = x.as_str() {
+                                        a.acts.insert(t.to_string());
+                                    }
+                                }
+                            }
+                        }
+                    }
                     let fresh = a.distinct.insert(key);
                     match verdict["st"].as_str().unwrap_or("toolerr") {
                         "ok" => {
@@ -253,6 +266,7 @@ pub fn replay(family: &str, args: &[String]) -> i32 {
         "n_violations": a.n_violations,
         "violations": a.violations,
         "samples": a.samples,
+        "spec_actions": a.acts.iter().cloned().collect::<Vec<_>>(),
     });
     println!("{}", summary);
     if a.toolerr > 0 {
